@@ -91,7 +91,7 @@ def safe_rate(rng, npos, nneg):
         return float(rng.choice([0.0, 0.25, 0.5, 0.75, 1.0]))
     while True:
         r = float(rng.rand())
-        att = [k / n for n in (npos, nneg) for k in range(n + 1)]
+        att = [k / n for n in (npos, nneg) if n for k in range(n + 1)]
         if min(abs(r - a) for a in att) > 1e-6:
             return r
 
@@ -117,14 +117,25 @@ def run(R, tier, seed, driver_ok):
     ninf = 0
     for si in range(nsets):
         name, est, X, y, args = ests[int(rng.randint(len(ests)))]
-        mode = ['distinct', 'ties', 'zeros', 'grid', 'diag', 'near'][si % 6]
+        mode = ['distinct', 'ties', 'zeros', 'grid', 'diag', 'near', 'single'][si % 7]
         n = int(rng.randint(4, 24))
-        P, yv = validation_set(rng, X, n, mode)
+        if mode == 'single':
+            # a validation set with ONE label only (all similar / all dissimilar), down to a single pair: accuracy is
+            # defined for every threshold (accept all / reject all is optimal); F-beta is when positives exist; the two
+            # rate-constrained criteria involve an undefined rate (0/0) and are not exercised here
+            n = int(rng.choice([1, 2, 3, n]))
+            P, yv = validation_set(rng, X, max(n, 2), ['distinct', 'ties', 'zeros'][(si // 7) % 3])
+            P, yv = P[:n], yv[:n]
+            yv[:] = 1 if (si // 7) % 2 == 0 else -1
+        else:
+            P, yv = validation_set(rng, X, n, mode)
         n = len(yv)
         d = est.pair_distance(P)
         npos, nneg = int((yv == 1).sum()), int((yv == -1).sum())
         confs = [('accuracy', None), ('f_beta', float(rng.choice([0, 0.5, 1, 2, rng.rand() * 3]))),
                  ('max_tpr', safe_rate(rng, npos, nneg)), ('max_tnr', safe_rate(rng, npos, nneg))]
+        if mode == 'single':
+            confs = confs[:2] if npos else confs[:1]
         for strategy, param in confs:
             kw = {'strategy': strategy}
             if strategy == 'f_beta':
